@@ -697,6 +697,7 @@ impl World for WindowWorld {
                 "probe.batch_with_several_windows",
                 "probe.window_of_a_second_or_more",
                 "probe.text_field_that_looks_numeric",
+                "probe.stream_of_more_than_1024_events",
             ],
             quick_runs: 1_500_000,
             thorough_runs: 40_000_000,
@@ -709,7 +710,11 @@ impl World for WindowWorld {
         let duration_ms = *rng.pick(&[1u64, 2, 3, 5, 10]);
         let cap = *rng.pick(&[1usize, 2, 3, 100, 100, 100]);
         let max_windows = *rng.pick(&[1usize, 2, 3, 100, 100]);
-        let n = 1 + rng.usize(12);
+        // one run in 400: a long stream (1030-1150 events, no effective cap); one in 100: a middling one (40-120)
+        let long = rng.chance(1, 400);
+        let middling = !long && rng.chance(1, 100);
+        let n = if long { 1030 + rng.usize(120) } else if middling { 40 + rng.usize(80) } else { 1 + rng.usize(12) };
+        let cap = if long { 100_000 } else { cap };
         let alpha = matches!(kind, Kind::AlphaSliding | Kind::AlphaTumbling | Kind::AlphaNoWindow);
         let ts_max = *rng.pick(&[6i64, 15, 40]);
         let field = |rng: &mut Rng| match rng.usize(8) {
@@ -786,6 +791,9 @@ impl World for WindowWorld {
         let distinct_windows: BTreeSet<i64> = t.events.iter().map(|e| e.ts.div_euclid(t.duration_ms as i64)).collect();
         obs.nontrivial = t.events.len() >= 3 && obs.faulty && (distinct_windows.len() >= 2 || t.events.len() > t.cap);
         obs.fp_str(&format!("{:?}|{}|{}|{}|{:?}|{:?}", t.kind, t.duration_ms, t.cap, t.max_windows, t.events, t.tick_pattern));
+        if t.events.len() > 1024 {
+            obs.count("probe.stream_of_more_than_1024_events");
+        }
         if t.duration_ms >= 1000 {
             obs.count("probe.window_of_a_second_or_more");
         }
